@@ -110,9 +110,10 @@ def r3_cleanup_typestate(chk: Check):
     nested = _nested_helpers(tree, f)
     direct = 0
     for cc in fn_calls(f.node):
-        if isinstance(cc.func, ast.Name) and cc.func.id in nested:
+        cn = dotted(cc.func)
+        if cn in nested and cn not in ("self.cleanup", "self.handle_error"):
             direct += 1
-            unreg, _ = _helper_effects(nested, nested[cc.func.id].node, _call_env(nested[cc.func.id].node, cc), {cc.func.id}, may=True)
+            unreg, _ = _helper_effects(nested, nested[cn].node, _call_env(nested[cn].node, cc), {cn}, may=True)
             chk.require(not unreg, chk.fkey(f, "cleanup stays registered on success"),
                         f"`{src(cc)}` unregisters the exit cleanup on a path to the process exit: the process ends with the cleanup neither run nor registered, "
                         "so a finished job keeps its pid file and holds its locks until the process is gone", chk.loc(f.module, cc))
@@ -121,13 +122,37 @@ def r3_cleanup_typestate(chk: Check):
     fork_protection(chk)
 
 
+class _N:
+    def __init__(self, node):
+        self.node = node
+
+
 def _nested_helpers(tree, f):
-    return {ff.node.name: ff for ff in tree.funcs.values() if ff.module is f.module and ff.parent is f and not isinstance(ff.node, ast.Lambda)}
+    """function definitions nested in `f` as they stand after the load-time normal forms (a helper spliced into `f` brings its own nested definitions)"""
+    out = {}
+    stack = list(f.node.body)
+    while stack:
+        st = stack.pop()
+        if isinstance(st, (ast.FunctionDef, ast.AsyncFunctionDef)):
+            out[st.name] = _N(st)
+            continue
+        for fld in ("body", "orelse", "finalbody"):
+            stack.extend(getattr(st, fld, []) or [])
+        for h in getattr(st, "handlers", []) or []:
+            stack.extend(h.body)
+    # ... and the methods of the same class (a closure turned into a method): `self.<name>`
+    if f.cls is not None:
+        for name, m in f.cls.methods.items():
+            if m is not f and not isinstance(m.node, ast.Lambda):
+                out["self." + name] = _N(m.node)
+    return out
 
 
 def _call_env(callee, call):
     env = _defaults(callee)
     ps = [a.arg for a in callee.args.posonlyargs + callee.args.args]
+    if ps and ps[0] == "self" and isinstance(call.func, ast.Attribute):
+        ps = ps[1:]
     for i, a in enumerate(call.args):
         if i < len(ps):
             env[ps[i]] = a
@@ -176,8 +201,9 @@ def _helper_effects(nested, fn_node, env, seen, depth=0, may=False):
                     unreg = True
                 if dotted(c.func) == "signal.signal" and len(c.args) == 2 and src(c.args[1]) != "self.handle_error":
                     restored.add(src(c.args[0]))
-                if isinstance(c.func, ast.Name) and c.func.id in nested and c.func.id not in seen and depth < 3:
-                    u2, r2 = _helper_effects(nested, nested[c.func.id].node, _call_env(nested[c.func.id].node, c), seen | {c.func.id}, depth + 1, may)
+                cn = dotted(c.func)
+                if cn in nested and cn not in seen and depth < 3:
+                    u2, r2 = _helper_effects(nested, nested[cn].node, _call_env(nested[cn].node, c), seen | {cn}, depth + 1, may)
                     unreg = unreg or u2
                     restored.update(r2)
 
@@ -197,8 +223,8 @@ def fork_protection(chk: Check):
     unreg, restored = False, set()
     for h in hooks:
         tgt = next((k.value for k in h.keywords if k.arg == "after_in_child"), None)
-        if isinstance(tgt, ast.Name) and tgt.id in nested:
-            u, r = _helper_effects(nested, nested[tgt.id].node, _defaults(nested[tgt.id].node), {tgt.id})
+        if tgt is not None and dotted(tgt) in nested:
+            u, r = _helper_effects(nested, nested[dotted(tgt)].node, _defaults(nested[dotted(tgt)].node), {dotted(tgt)})
         elif isinstance(tgt, ast.Lambda):
             u, r = _helper_effects(nested, ast.FunctionDef(name="<lambda>", args=tgt.args, body=[ast.Expr(tgt.body)], decorator_list=[]), {}, set())
         else:
